@@ -150,6 +150,7 @@ type Enc struct {
 	dynImpl         map[string]bool
 	qbound          []string // names of the quantifier variables whose body is being evaluated
 	dryCache        []dryCached
+	applyCells      map[string]*Val // captured-variable cells while a closure's contract is applied at a call site
 	recGhost        map[string]bool
 	trustedClauses  []string // "trusted ensures" clauses of the function under verification (not checked)
 	closedFacts     map[string]bool // universally closed side facts already emitted (bound names normalised)
@@ -442,6 +443,19 @@ func (e *Enc) loadLoc(st *State, l *Loc) *Val {
 			e.assertRange("(<= " + v.L[i].T + " " + v.L[i+1].T + ")")
 		}
 	}
+	// slice values held in memory are well-formed slices (type invariant of every Go slice value): 0 <= off, 0 <= len <= cap
+	for i := 0; i+3 < len(leaves); i++ {
+		if _, isSlice := leaves[i].T.Underlying().(*types.Slice); !isSlice || !strings.HasSuffix(leaves[i].Path, ".base") && leaves[i].Path != "base" {
+			continue
+		}
+		pre := strings.TrimSuffix(leaves[i].Path, "base")
+		if leaves[i+1].Path == pre+"off" && leaves[i+2].Path == pre+"len" && leaves[i+3].Path == pre+"cap" {
+			f := "(and (<= 0 " + v.L[i+1].T + ") (<= 0 " + v.L[i+2].T + ") (<= " + v.L[i+2].T + " " + v.L[i+3].T + ") (<= " + v.L[i+3].T + " 9223372036854775807))"
+			if !strings.Contains(f, "|q!") {
+				e.assertTyping(f)
+			}
+		}
+	}
 	return v
 }
 
@@ -464,6 +478,17 @@ func (e *Enc) typeAssume(st *State, lf Leaf, t string) {
 		case strings.HasSuffix(lf.Path, ".len"), strings.HasSuffix(lf.Path, ".cap"), strings.HasSuffix(lf.Path, ".off"):
 			// lengths, capacities and offsets of slice values are non-negative ints
 			e.assertRange("(and (<= 0 " + t + ") (<= " + t + " 9223372036854775807))")
+		}
+		// every slice value is well-formed wherever it is stored: 0 <= off, 0 <= len <= MaxInt64 (len() is an int)
+		if i := strings.LastIndex(lf.Path, "."); i >= 0 {
+			switch lf.Path[i:] {
+			case ".len":
+				e.assertTyping("(and (<= 0 " + t + ") (<= " + t + " 9223372036854775807))")
+			case ".off":
+				e.assertTyping("(<= 0 " + t + ")")
+			case ".cap":
+				e.assertTyping("(<= " + t + " 9223372036854775807)")
+			}
 		}
 	}
 }
@@ -574,11 +599,47 @@ func (e *Enc) freshVal(st *State, hint string, t types.Type) *Val {
 			switch lf.Path[strings.LastIndex(lf.Path, "."):] {
 			case ".len", ".off":
 				e.assert("(<= 0 " + n + ")")
+				if strings.HasSuffix(lf.Path, ".len") {
+					// len() is an int
+					e.assert("(<= " + n + " 9223372036854775807)")
+				}
+			case ".cap":
+				e.assert("(<= " + n + " 9223372036854775807)")
 			}
 		}
 	}
 	e.sliceWellFormed(v)
+	e.nestedSlicesWellFormed(v)
 	return v
+}
+
+// nestedSlicesWellFormed: slice-typed components of a tuple / struct value (four consecutive leaves base, off, len, cap
+// of one slice type) satisfy len <= cap and "nil base => empty", like top-level slice values.
+func (e *Enc) nestedSlicesWellFormed(v *Val) {
+	if v.T == nil {
+		return
+	}
+	if _, ok := v.T.Underlying().(*types.Slice); ok {
+		return // handled by sliceWellFormed
+	}
+	sh := e.TI.shape(v.T)
+	if len(sh) != len(v.L) {
+		return
+	}
+	for i := 0; i+3 < len(sh); i++ {
+		if _, isSlice := sh[i].T.Underlying().(*types.Slice); !isSlice {
+			continue
+		}
+		p := sh[i].Path
+		if !strings.HasSuffix(p, ".base") {
+			continue
+		}
+		pre := strings.TrimSuffix(p, ".base")
+		if sh[i+1].Path == pre+".off" && sh[i+2].Path == pre+".len" && sh[i+3].Path == pre+".cap" {
+			e.assert("(and (<= " + v.L[i+2].T + " " + v.L[i+3].T + ") (<= " + v.L[i+3].T + " 9223372036854775807))")
+			e.assert("(=> (= " + v.L[i].T + " 0) (= " + v.L[i+2].T + " 0))")
+		}
+	}
 }
 
 // sliceWellFormed asserts 0<=len<=cap for every slice-shaped group of leaves in v (when v itself is a slice).
@@ -587,7 +648,7 @@ func (e *Enc) sliceWellFormed(v *Val) {
 		return
 	}
 	if _, ok := v.T.Underlying().(*types.Slice); ok && len(v.L) == 4 {
-		e.assert("(and (<= 0 " + v.L[1].T + ") (<= 0 " + v.L[2].T + ") (<= " + v.L[2].T + " " + v.L[3].T + "))")
+		e.assert("(and (<= 0 " + v.L[1].T + ") (<= 0 " + v.L[2].T + ") (<= " + v.L[2].T + " " + v.L[3].T + ") (<= " + v.L[3].T + " 9223372036854775807))")
 		e.assert("(=> (= " + v.L[0].T + " 0) (= " + v.L[2].T + " 0))")
 	}
 }
@@ -941,6 +1002,30 @@ func (e *Enc) mergeVals(hint string, vs []*Val, conds []string) *Val {
 	if (first.Loc != nil || first.Clos != nil) && allSame {
 		return first
 	}
+	// nil and interior pointers of one shape (same container type, field path; 'F' kind) on different paths: one interior
+	// pointer whose object reference depends on the path, 0 standing for nil
+	if lv := e.mergeNullableLocs(hint, vs, conds); lv != nil {
+		return lv
+	}
+	// different closures on different paths: keep the alternatives with their path conditions
+	allClos := true
+	for _, v := range vs {
+		if v.Clos == nil && len(v.Alts) == 0 {
+			allClos = false
+		}
+	}
+	if allClos {
+		out := &Val{T: first.T}
+		for i, v := range vs {
+			if v.Clos != nil {
+				out.Alts = append(out.Alts, ClosAlt{conds[i], v.Clos})
+			}
+			for _, a := range v.Alts {
+				out.Alts = append(out.Alts, ClosAlt{and(conds[i], a.Cond), a.Clos})
+			}
+		}
+		return out
+	}
 	out := &Val{T: first.T}
 	for i := range first.L {
 		same := true
@@ -964,6 +1049,44 @@ func (e *Enc) mergeVals(hint string, vs []*Val, conds []string) *Val {
 		out.L = append(out.L, Sc{e.define(hint, first.L[i].S, t), first.L[i].S})
 	}
 	return out
+}
+
+func (e *Enc) mergeNullableLocs(hint string, vs []*Val, conds []string) *Val {
+	var proto *Loc
+	for _, v := range vs {
+		switch {
+		case v.Loc != nil:
+			if v.Clos != nil || v.Loc.Kind != 'F' {
+				return nil
+			}
+			if proto == nil {
+				proto = v.Loc
+			} else if proto.Key != v.Loc.Key || proto.Path != v.Loc.Path || typeStr(proto.T) != typeStr(v.Loc.T) {
+				return nil
+			}
+		case v.Clos == nil && len(v.L) == 1 && v.L[0].T == "0":
+			// the nil pointer
+		default:
+			return nil
+		}
+	}
+	if proto == nil {
+		return nil
+	}
+	refOf := func(v *Val) string {
+		if v.Loc != nil {
+			return v.Loc.Ref
+		}
+		return "0"
+	}
+	t := refOf(vs[len(vs)-1])
+	for j := len(vs) - 2; j >= 0; j-- {
+		t = ite(conds[j], refOf(vs[j]), t)
+	}
+	nl := *proto
+	nl.Ref = e.define(hint+"!iptr", "Int", t)
+	nl.Nullable = true
+	return &Val{T: vs[0].T, Loc: &nl}
 }
 
 // edgeCond returns the condition for taking edge from block b (already encoded, end state st) to succ index si.
